@@ -1,7 +1,102 @@
+// FaultyDataModel: decorator around the real datamodels that injects transient error.execution failures into
+// datamodel calls made while an element of executable content is running (C07, mode T).  Which calls fail is decided
+// by a generator seeded from the plan; every injected fault is a trace record ("flt", kind, element, expression).
 #include "faulty.h"
+#include "uscxml/plugins/Factory.h"
+#include "uscxml/plugins/DataModelImpl.h"
+#include "uscxml/interpreter/InterpreterImpl.h"
+#include "uscxml/util/DOM.h"
+
 namespace h {
+
+std::vector<std::string> g_contentStack;   // innermost element of executable content being run (maintained by RecMonitor)
+static long g_faultsInjected = 0;
+static long g_dmCalls = 0;
+
+using namespace uscxml;
+
+class FaultyDataModel : public DataModelImpl {
+public:
+	std::shared_ptr<DataModelImpl> real;
+	std::string tag;
+	uint64_t rng = 88172645463325252ull;
+	double p = 0;
+	size_t failedDepth = 0;   // content depth of the element that already got its fault
+	std::string failedElem;
+
+	FaultyDataModel(std::shared_ptr<DataModelImpl> r, const std::string& t, uint64_t seed, double prob) : real(r), tag(t), p(prob) {
+		rng ^= seed * 0x9E3779B97F4A7C15ull;
+		if (!rng) rng = 1;
+	}
+	double next() {
+		rng ^= rng << 13; rng ^= rng >> 7; rng ^= rng << 17;
+		return (double)(rng >> 11) / (double)(1ull << 53);
+	}
+	void maybeFail(const char* kind, const std::string& expr) {
+		if (g_contentStack.empty()) return;   // conditions of transitions, data initialisation, setEvent: not here
+		g_dmCalls++;
+		const std::string& elem = g_contentStack.back();
+		if (failedElem == elem && failedDepth == g_contentStack.size()) return;   // one fault per element execution
+		if (next() < p) {
+			failedElem = elem;
+			failedDepth = g_contentStack.size();
+			g_faultsInjected++;
+			{ tr::Rec(tag, "flt").str(kind).str(elem).str(expr.substr(0, 80)); }
+			ErrorEvent e;
+			e.name = "error.execution";
+			e.data.compound["cause"] = Data("injected transient datamodel failure", Data::VERBATIM);
+			e.eventType = Event::PLATFORM;
+			throw e;
+		}
+	}
+	void leftElement() { failedElem.clear(); failedDepth = 0; }
+
+	virtual std::shared_ptr<DataModelImpl> create(DataModelCallbacks* callbacks) { return real->create(callbacks); }
+	virtual void setup() {}
+	virtual std::list<std::string> getNames() { return real->getNames(); }
+	virtual bool isValidSyntax(const std::string& expr) { return real->isValidSyntax(expr); }
+	virtual bool isLegalDataValue(const std::string& expr) { return real->isLegalDataValue(expr); }
+	virtual void setEvent(const Event& event) { real->setEvent(event); }
+	virtual uint32_t getLength(const std::string& expr) { maybeFail("getLength", expr); return real->getLength(expr); }
+	virtual void setForeach(const std::string& item, const std::string& array, const std::string& index, uint32_t iteration) {
+		maybeFail("setForeach", array);
+		real->setForeach(item, array, index, iteration);
+	}
+	virtual Data getAsData(const std::string& content) { return real->getAsData(content); }
+	virtual Data evalAsData(const std::string& content) { maybeFail("evalAsData", content); return real->evalAsData(content); }
+	virtual void eval(const std::string& content) { maybeFail("eval", content); real->eval(content); }
+	virtual bool evalAsBool(const std::string& expr) { maybeFail("evalAsBool", expr); return real->evalAsBool(expr); }
+	virtual bool isDeclared(const std::string& expr) { return real->isDeclared(expr); }
+	virtual void assign(const std::string& location, const Data& data, const std::map<std::string, std::string>& attr) {
+		maybeFail("assign", location);
+		real->assign(location, data, attr);
+	}
+	virtual void init(const std::string& location, const Data& data, const std::map<std::string, std::string>& attr) {
+		real->init(location, data, attr);
+	}
+};
+
+static FaultyDataModel* g_lastFaulty = nullptr;
+
 void registerFaultyDataModels() {}
+
+uscxml::DataModel makeFaultyDataModel(uscxml::Interpreter& interp, const js::Value& faults, const std::string& tag) {
+	InterpreterImpl* impl = interp.getImpl().get();
+	XERCESC_NS::DOMElement* scxml = impl->getDocument()->getDocumentElement();
+	std::string name = HAS_ATTR(scxml, X("datamodel")) ? ATTR(scxml, X("datamodel")) : "null";
+	std::shared_ptr<DataModelImpl> real = Factory::getInstance()->createDataModel(name, impl);
+	FaultyDataModel* f = new FaultyDataModel(real, tag, (uint64_t)faults["seed"].i64(1), faults["p"].num(0.05));
+	g_lastFaulty = f;
+	return uscxml::DataModel(std::shared_ptr<DataModelImpl>(f));
+}
+
+void contentLeft() {
+	if (g_lastFaulty && g_lastFaulty->failedDepth > g_contentStack.size()) g_lastFaulty->leftElement();
+}
+
 void installFaultPlan(uscxml::Interpreter&, const js::Value&) {}
-void resetFaultStats() {}
-std::string faultStatsJSON() { return ""; }
+void resetFaultStats() { g_faultsInjected = 0; g_dmCalls = 0; g_contentStack.clear(); g_lastFaulty = nullptr; }
+std::string faultStatsJSON() {
+	return "\"dm_faults\":" + std::to_string(g_faultsInjected) + ",\"dm_calls_in_content\":" + std::to_string(g_dmCalls);
+}
 }
